@@ -1,0 +1,16 @@
+//go:build verif
+
+package sample
+
+import "github.com/cronokirby/saferith"
+
+// VerifPrimeSource, when set (verification builds only), supplies the safe
+// primes returned by Paillier instead of searching for them.
+var VerifPrimeSource func() (p, q *saferith.Nat)
+
+func verifPrimes() (p, q *saferith.Nat) {
+	if f := VerifPrimeSource; f != nil {
+		return f()
+	}
+	return nil, nil
+}
